@@ -133,7 +133,8 @@ func sliceRoots(v ssa.Value, top *ssa.Function, seen map[ssa.Value]bool) sliceIn
 			return out
 		}
 		switch calleeName(x.Common()) {
-		case "bytes.Clone", "slices.Clone", "bytes.Repeat", "bytes.ToUpper", "bytes.ToLower":
+		case "bytes.Clone", "slices.Clone", "bytes.Repeat", "bytes.ToUpper", "bytes.ToLower", "bytes.ReplaceAll", "bytes.Replace", "bytes.Join", "bytes.ToTitle":
+			/* Documented to return a copy, always. */
 			out.roots["fresh"] = true
 		case "bytes.TrimSpace", "bytes.TrimRight", "bytes.TrimLeft", "bytes.TrimSuffix", "bytes.TrimPrefix", "bytes.Trim":
 			o := sliceRoots(x.Common().Args[0], top, seen)
@@ -231,6 +232,9 @@ var uuReadOnlyCallees = map[string]bool{
 	"bytes.IndexByte": true, "bytes.Contains": true, "bytes.HasPrefix": true, "bytes.HasSuffix": true, "bytes.Count": true,
 	"slices.Index": true, "bytes.TrimSpace": true, "bytes.TrimRight": true, "bytes.TrimSuffix": true, "slices.Clone": true,
 	"bytes.Cut": true, "bytes.TrimPrefix": true, "bytes.CutPrefix": true, "bytes.CutSuffix": true, "bytes.LastIndexByte": true, "bytes.Index": true,
+	"bytes.ReplaceAll": true, "bytes.Replace": true, "bytes.ContainsRune": true, "bytes.ContainsAny": true, "bytes.IndexAny": true,
+	"bytes.Compare": true, "bytes.EqualFold": true, "bytes.TrimLeft": true, "bytes.Trim": true, "bytes.Fields": true, "bytes.SplitN": true,
+	"bytes.LastIndex": true, "bytes.IndexRune": true, "slices.Equal": true, "bytes.ToUpper": true, "bytes.ToLower": true,
 }
 
 func checkC15(p *Prog, r *Report) {
@@ -947,6 +951,35 @@ func checkC15Tables(p *Prog, r *Report, ru *Rule, fns map[*ssa.Function]*ssa.Fun
 			}
 		}
 	}
+	/* Sanitiser written as a library call: bytes.ReplaceAll(x, {a}, {b}) (or
+	Replace with a negative count) of one byte by one byte. */
+	for f, top := range fns {
+		if top != dec {
+			continue
+		}
+		eachInstr(f, func(i ssa.Instruction) {
+			c, ok := i.(*ssa.Call)
+			if !ok {
+				return
+			}
+			switch calleeName(c.Common()) {
+			case "bytes.ReplaceAll":
+			case "bytes.Replace":
+				if k, ok := constInt(c.Common().Args[3]); !ok || k >= 0 {
+					return
+				}
+			default:
+				return
+			}
+			a, okA := constByteSlice(c.Common().Args[1])
+			b, okB := constByteSlice(c.Common().Args[2])
+			if !okA || !okB || 1 != len(a) || 1 != len(b) {
+				sanitize[-1] = -1 /* a substitution which is not byte for byte */
+				return
+			}
+			sanitize[int64(a[0])] = int64(b[0])
+		})
+	}
 	if !haveAcc {
 		ru.Unproven(fnName(dec)+":accepts", token.NoPos, "the decoder's alphabet check was not found")
 		return
@@ -1011,6 +1044,9 @@ func isShrinkingLoop(p *Prog, h *ssa.BasicBlock) bool {
 	if nil == ifi {
 		return false
 	}
+	if isCutWhileFound(p, h, ifi) {
+		return true
+	}
 	/* The condition: len(R) != 0 / 0 != len(R) / len(R) > 0 / 0 < len(R). */
 	bo, ok := ifi.Cond.(*ssa.BinOp)
 	if !ok {
@@ -1063,6 +1099,51 @@ func isShrinkingLoop(p *Prog, h *ssa.BasicBlock) bool {
 		/* The body is entered over the "non-empty" edge. */
 		if !h.Succs[0].Dominates(c.Block()) && h.Succs[0] != c.Block() {
 			return false
+		}
+	}
+	return nback > 0
+}
+
+// isCutWhileFound: the loop headed by h goes round while the last bytes.Cut
+// found its (non-empty) separator, and every Cut is of what the one before
+// left: a Cut which finds the separator leaves strictly less, one which does
+// not ends the loop.
+func isCutWhileFound(p *Prog, h *ssa.BasicBlock, ifi *ssa.If) bool {
+	more, ok := ifi.Cond.(*ssa.Phi)
+	if !ok || more.Block() != h {
+		return false
+	}
+	/* The body is entered over the "found" edge. */
+	nback := 0
+	for k, e := range more.Edges {
+		if !h.Dominates(h.Preds[k]) {
+			continue /* way in */
+		}
+		nback++
+		ex, ok := e.(*ssa.Extract)
+		if !ok || 2 != ex.Index {
+			return false
+		}
+		c, ok := ex.Tuple.(*ssa.Call)
+		if !ok || ("bytes.Cut" != calleeName(c.Common()) && "strings.Cut" != calleeName(c.Common())) || !nonEmptySeparator(p, c.Common().Args[1]) {
+			return false
+		}
+		if !h.Succs[0].Dominates(c.Block()) && h.Succs[0] != c.Block() {
+			return false
+		}
+		/* What is cut is what the last Cut left. */
+		rest, ok := c.Common().Args[0].(*ssa.Phi)
+		if !ok || rest.Block() != h {
+			return false
+		}
+		for j, re := range rest.Edges {
+			if !h.Dominates(h.Preds[j]) {
+				continue
+			}
+			rx, ok := re.(*ssa.Extract)
+			if !ok || 1 != rx.Index || rx.Tuple != ssa.Value(c) {
+				return false
+			}
 		}
 	}
 	return nback > 0
@@ -1129,6 +1210,9 @@ func nonEmptySeparator(p *Prog, v ssa.Value) bool {
 // change: "for i := a; i < n; i += k" with constant k > 0, or "for len(x) < n
 // { x = append(x, …) }".  It terminates.
 func isCountingLoop(h *ssa.BasicBlock) bool {
+	if isBottomTestedCountingLoop(h) {
+		return true
+	}
 	ifi := blockIf(h)
 	if nil == ifi || 2 != len(h.Succs) {
 		return false
@@ -1224,6 +1308,79 @@ func isCountingLoop(h *ssa.BasicBlock) bool {
 			/* At least one element is added. */
 			return len(variadicElems(app.Common())) >= 1
 		})
+	}
+	return false
+}
+
+// isBottomTestedCountingLoop: the same loop with the test at the bottom (what
+// the compiler makes of "for i := range 4"): one counter of the head is
+// stepped by a positive constant on every way round, and every way round is
+// the true edge of "stepped < bound" with a bound the loop does not compute.
+func isBottomTestedCountingLoop(h *ssa.BasicBlock) bool {
+	for _, i := range h.Instrs {
+		ph, ok := i.(*ssa.Phi)
+		if !ok {
+			break
+		}
+		n, good := 0, true
+		for k, e := range ph.Edges {
+			pred := h.Preds[k]
+			if !h.Dominates(pred) {
+				continue /* way in */
+			}
+			n++
+			add, ok := e.(*ssa.BinOp)
+			if !ok || token.ADD != add.Op || add.X != ssa.Value(ph) {
+				good = false
+				break
+			}
+			if st, isC := constInt(add.Y); !isC || st <= 0 {
+				good = false
+				break
+			}
+			ifi := blockIf(pred)
+			if nil == ifi || 2 != len(pred.Succs) || pred.Succs[0] != h || pred.Succs[1] == h {
+				good = false
+				break
+			}
+			bo, ok := ifi.Cond.(*ssa.BinOp)
+			if !ok {
+				good = false
+				break
+			}
+			x, y, op := bo.X, bo.Y, bo.Op
+			switch op {
+			case token.GTR:
+				x, y, op = y, x, token.LSS
+			case token.GEQ:
+				x, y, op = y, x, token.LEQ
+			}
+			if (token.LSS != op && token.LEQ != op) || x != ssa.Value(add) {
+				good = false
+				break
+			}
+			/* The bound. */
+			if lc, isCall := y.(*ssa.Call); isCall {
+				if bi, isB := lc.Common().Value.(*ssa.Builtin); isB && "len" == bi.Name() {
+					y = lc.Common().Args[0]
+				}
+			}
+			switch b := y.(type) {
+			case *ssa.Const, *ssa.Parameter, *ssa.FreeVar:
+			case ssa.Instruction:
+				if h.Dominates(b.Block()) {
+					good = false
+				}
+			default:
+				good = false
+			}
+			if !good {
+				break
+			}
+		}
+		if good && n > 0 {
+			return true
+		}
 	}
 	return false
 }
